@@ -435,8 +435,19 @@ def cmd_digests(mod_id: str, tier: str, indices: str) -> int:
     return 0
 
 
+def sweep_stale_scratch() -> None:
+    """Remove scratch directories of check processes that no longer exist
+    (killed runs)."""
+    import re
+    for name in os.listdir("/dev/shm"):
+        m = re.match(r"verif-(?:run-|tmp-)?(\d+)", name)
+        if m and not os.path.exists(f"/proc/{m.group(1)}"):
+            shutil.rmtree(os.path.join("/dev/shm", name), ignore_errors=True)
+
+
 def cmd_check(mod_id: str, tier: str) -> int:
     t0 = time.time()
+    sweep_stale_scratch()
     limit_memory()  # inherited by every child; the parent itself needs little
     seed = int(os.environ.get("VERIF_SEED", "0"))
     mod = load_prop(mod_id)
